@@ -70,3 +70,12 @@ Theorem C16_inner_only_cleanup_refuted :
     <> charge_fee s (t_from t) (fee_of (fst (execute_gen inner_snap p t s))).
 Proof. exact inner_only_cleanup_refuted. Qed.
 Print Assumptions C16_inner_only_cleanup_refuted.
+
+(* the validator list (and hence every IndexOf) is world state too: a failed transaction
+   that granted / revoked validators leaves it as it was *)
+Theorem C16_failure_keeps_validators : forall p t s,
+  r_status (fst (execute p t s)) <> 0%N ->
+  vals (snd (execute p t s)) = vals s
+  /\ forall a, index_of a (vals (snd (execute p t s))) = index_of a (vals s).
+Proof. exact failure_keeps_validators. Qed.
+Print Assumptions C16_failure_keeps_validators.
